@@ -19,6 +19,9 @@ ASSUMPTIONS = ["Go timers fire, the scheduler eventually runs an enabled gorouti
 
 def corpus():
     return [
+        "run prop=C05 mode=file dur=3000 conc=2 file=u:1500:20000 cancel=2 body=1",      # C05k: cancelled while a large stage is still building its pool
+        "run prop=C05 mode=file dur=3000 conc=2 file=u:1500:20000 cancel=1 body=1",
+        "run prop=C05 mode=file dur=3000 conc=2 file=u:1500:30000 cancel=4 body=1",
         "run prop=C05 mode=constant rate=5/100ms dur=600 conc=4 body=20",
         "run prop=C05 mode=constant rate=5/100ms dur=1300 conc=4 body=20 stallprogress=1200 retmin=1290",   # a progress line stalled by the sink: Stop must wait
         "run prop=C05 mode=constant rate=5/100ms dur=1300 conc=4 body=20 wedge=1",                             # D3: deadlock schedule
